@@ -31,6 +31,22 @@ check("C05",
       "property-based testing: history invariants over flush events of generated programs + differential on received values",
       "DESIGN.md 5/C05")
 
+check("C03",
+      "Generated yield-only programs with tasks awaited by several parents, already-computed futures yielded again, orphans, empty structures and failures: monitors inside every generated task body assert 'never resumed with an uncomputed future', 'resumes = yields', 'no step after completion', 'orphans never start', 'fresh list/tuple siblings start in the order written'; after value() returns every task the reference says is transitively awaited must be computed. Deep chains (up to 1 500 awaiting tasks in the quick tier, 100 000 in the thorough tier, five yield patterns) must return the closed-form value with exactly one resume per yield. Termination is a bounded check (heartbeat watchdog, case re-run alone before a hang is reported).",
+      "Trusted: the monitors in harness/e1/engine.py; liveness is bounded by VERIF_STALL_S (120 s against milliseconds per case).",
+      "property-based testing with in-body runtime monitors over generated DAG programs + enumerated deep-chain scalability cases + watchdog",
+      "DESIGN.md 5/C03")
+check("C06",
+      "Generated programs with recording AsyncContext blocks (real with statements: spanning several yields, nested, in many concurrently pending tasks, left normally / by delivered error / by early result, with synchronous re-entry and DAG sharing). Oracle per context: resume/pause strictly alternate from entry to exit; at every statement of every task and at every flush the context is active iff its owner is ancestor-or-self (uniquely) of the running task / of the task whose synchronous call drives the flush, and paused if its owner does not reach the running task at all -- computed from the program's await/sync-call graph. NonAsyncContext: yield-only tree programs compared with a NonAsyncContext-aware round simulator (a task fails with AssertionError iff it has to be suspended inside the block).",
+      "Trusted: round simulator, the harness's record of the await graph. Nothing is asserted about which of two awaiters' contexts is active for a shared task; contexts whose own pause/resume raise are out of scope here (C08).",
+      "property-based testing: runtime monitors + event-log invariants over generated programs; differential against a round simulator for NonAsyncContext",
+      "DESIGN.md 5/C06")
+check("C07",
+      "Generated programs with AsyncScopedValue.override / async_override blocks on shared values, reads at generated positions, nested and concurrent overrides in many pending tasks, synchronous re-entry and failures. Oracle: the global resume/pause log of all contexts is well-parenthesised (LIFO); every read equals the dynamic-scope value computed by the sequential reference interpreter; after the call returns or raises every value/attribute equals its initial value.",
+      "Trusted: reference interpreter's dynamic scoping. Reads inside tasks with two awaiters are not generated (ambiguous scope).",
+      "property-based differential testing against a sequential reference (dynamic scoping) + LIFO invariant over the context event log",
+      "DESIGN.md 5/C07")
+
 for pid in ["C%02d" % i for i in range(1, 21)]:
     if pid not in CHECKS:
         PENDING[pid] = "check under construction in this framework (designed in DESIGN.md section 5, not yet registered)"
